@@ -1913,6 +1913,9 @@ class Parallel(Logger):
         try:
             self._iterating = True
             self._original_iterator = iterable
+            # Nothing is dispatched ahead of time in the sequential case:
+            # print_progress reads this attribute once the loop is over.
+            self._pre_dispatch_amount = 0
             batch_size = self._get_batch_size()
 
             if batch_size != 1:
